@@ -109,11 +109,13 @@ def aAccumulateLoop : Accumulator F G → List (Accumulator F G × F) → Accumu
 
 /-- `verifier/accumulator.rs: AssignedAccumulator::accumulate` on values (sponge `hash` over the
 in-circuit public-input form, which `PublicInputInstructions::as_public_input` keeps equal to the
-off-circuit one); `none` = `accs[0]` on an empty slice. -/
+off-circuit one). An empty slice returns `AssignedAccumulator::new(AssignedMsm::empty(),
+AssignedMsm::empty())` before any cell is assigned (commit f706bff; the pinned code evaluated
+`accs[0]`). -/
 def Accumulator.aAccumulate (hash : List F → F) (enc : G → List F)
     (accs : List (Accumulator F G)) : Option (Accumulator F G) :=
   match accs with
-  | [] => none
+  | [] => some Accumulator.neutral
   | a :: rest =>
     let r := hash (accumulateHashInput enc accs)
     some (aAccumulateLoop a (rest.zip ((aPowers r accs.length).drop 1)))
